@@ -18,6 +18,28 @@ from .world import St
 from .sock_common import limit
 
 OPS = [0, 2, 3, 4, 5]      # get set setq noop touch
+# the read buffer's spare capacity when the stream starts: 4096 on a fresh connection, less after earlier requests on the same
+# connection were consumed (BytesMut gives the consumed part up); symbolic for the 'bufcap' items
+BUFCAP = z3.BitVec('bufcap', 64)
+FILL_OPAQUE = 0xF1F1F1F1
+
+
+def filler(nbytes):
+    """complete requests totalling nbytes that leave no trace but noop responses with FILL_OPAQUE"""
+    from .wire import frame
+    if nbytes == 0:
+        return b''
+    out = b''
+    if nbytes % 24:
+        for r in range(24):
+            if nbytes - 33 - r >= 0 and (nbytes - 33 - r) % 24 == 0:
+                out += frame(0x11, b'f', b'\0' * 8, b'z' * r)
+                nbytes -= 33 + r
+                break
+        else:
+            raise ValueError('filler size')
+    out += frame(0x0a, opaque=FILL_OPAQUE) * (nbytes // 24)
+    return out
 
 
 def scen(m_, x, end, fault):
@@ -34,9 +56,15 @@ def scen(m_, x, end, fault):
     # a second connection observes afterwards: the server still serves and shows the store contents
     from .wire import frame
     probe = frame(0x00, b'k', opaque=0x777)
+    pre = []
+    if fault == 'bufcap':
+        f = filler(4096 - mval(m_, BUFCAP))
+        if f:
+            pre = [f]
+    cuts = pre + cuts
     return {'kind': 'socket', 'item_limit': mval(m_, limit), 'timeout_secs': 1,
             'conns': [{'chunks': [c.hex() for c in cuts if c], 'pause_ms': 60, 'read_ms': 1500 if end == 'silent' else 400,
-                       'end': 'close' if end in ('eof', 'error') else 'hold'},
+                       'end': 'shutdown_write' if fault == 'bufcap' else 'close' if end in ('eof', 'error') else 'hold', 'fin_immediately': fault == 'bufcap'},
                       {'chunks': [probe.hex()], 'pause_ms': 30, 'read_ms': 300, 'end': 'close'}]}
 
 
@@ -49,6 +77,10 @@ def explore_item(ck, it, m, tier):
     def h(E):
         rest = OPS if tier != 'quick' else [2, 4]
         ops = [first] + [rest[E.choose(len(rest), 'op')] for _ in range(m - 1)]
+        if fault == 'bufcap':
+            spare_used = BV(4096) - BUFCAP
+            E.assume(z3.UGE(BUFCAP, 64), z3.ULE(BUFCAP, 4096), z3.Or(spare_used == 0, spare_used == 24, z3.UGE(spare_used, 56)))
+            return CC.run_lifecycle(E, st, ops, end, None, R, cap=BUFCAP)
         return CC.run_lifecycle(E, st, ops, end, fault, R)
     res = ck.explore(h)
     nval = 0
@@ -88,6 +120,7 @@ def explore_item(ck, it, m, tier):
             sc = scen(m_, x, end, fault)
             out = ck.replay([sc])[0]
             nseq, nclosed = native_seq(out)
+            nseq = [a for a in nseq if a[1] != FILL_OPAQUE]
             alive = bool(out['conns'][1].get('received'))
             desc = f"{[f[1][0] for f in x.complete]} then {fault} (cut={mval(m_, CC.cut)} magic=0x{mval(m_, CC.badbyte):02x}) peer {end}, reads {[mval(m_, z3.BitVec('n' if i == 0 else f'n!{i}', 64)) for i in range(x.nreads)]}: " \
                    f"{'; '.join(problems)} | native: responses {nseq}, server still answers a second connection: {alive}"
@@ -111,6 +144,7 @@ def explore_item(ck, it, m, tier):
                 sc = scen(m_, x, end, fault)
                 out = ck.replay([sc])[0]
                 nseq, nclosed = native_seq(out)
+                nseq = [a for a in nseq if a[1] != FILL_OPAQUE]
                 if nseq == seq and out['conns'][1].get('received'):
                     ck.replays_ok += 1
                 else:
@@ -132,6 +166,7 @@ def run(tier, seed, replay_path=None):
     firsts = OPS
     items = [(f, end, fault) for f in firsts for end, fault in
              (('eof', 'partial'), ('error', 'partial'), ('silent', 'partial'), ('eof', 'corrupt'), ('eof', None))]
+    items += [(f, 'eof', 'bufcap') for f in (firsts if tier != 'quick' else [2, 4])]
     ck.fork_map(items, lambda c, it: explore_item(c, it, m, tier))
     # "the server keeps serving": whatever happens to one connection around its acceptance, the accept loop goes on
     from . import runtime_checks
